@@ -1,7 +1,143 @@
-(* placeholder - replaced below *)
+(* C01/Properties.v - the property theorems of unit C01, and nothing else.
+   Every theorem is closed by [exact <lemma>] and followed by Print Assumptions.
+   NOT covered by these theorems (sampled by the harness under ASan/UBSan, see props/C01.py):
+   the lexer, the parser, the bytes the emitter writes, the arena. *)
 From Coq Require Import NArith List Bool.
-From Morfuse Require Import C01.Model C01.Spec.
+From Morfuse Require Import Base.Arr C01.Generated C01.Model C01.Spec C01.Proofs C01.ProofsJump.
 Import ListNotations.
 Local Open Scope N_scope.
-Example ex1 : kcompile (SCons (SWhile (SCons SBreak SNil)) SNil) = KOk [(Some 0, 1)].
+
+(* (i) For EVERY history of compile (stream variant, with or without recompile), request by
+   name (file variant), run, ExecuteThread(name) and file registration, the code-level script
+   table - entry registered as failed BEFORE compilation, flipped on success, deleted first on
+   recompile, the file opened only after the deletion - observes exactly what the total-map
+   specification observes: the same returned scripts, the same rejections, "not loaded" for a
+   failed name in both request variants, the same runs. *)
+Theorem C01_script_table_refines_the_map :
+  forall ops : list op, run ops = spec_run ops.
+Proof. exact run_refines_spec. Qed.
+Print Assumptions C01_script_table_refines_the_map.
+
+(* For every state of the table (so: after every history), when the stream-variant compile of
+   n is performed and rejected: n maps to Failed; every other entry and every file is
+   unchanged; asking again by stream / by name / by ExecuteThread(name) answers "not loaded" and
+   a run reports the failed script; and every later history about other names observes exactly
+   what it observes on the table WITHOUT the failed entry. *)
+Theorem C01_reject_leaves_master_usable :
+  forall (m : mst) (n : N) (rc : bool) (k : N),
+    snd (step m (OCompile n rc (Reject k))) = BRejected k ->
+    let m' := fst (step m (OCompile n rc (Reject k))) in
+    tfind (tbl m') n = Some Failed
+    /\ (forall x, x <> n -> tfind (tbl m') x = tfind (tbl m) x)
+    /\ (forall x, ffind (files m') x = ffind (files m) x)
+    /\ (forall s, snd (step m' (OCompile n false s)) = BNotLoaded)
+    /\ snd (step m' (ORequest n false)) = BNotLoaded
+    /\ snd (step m' (OExec n)) = BNotLoaded
+    /\ snd (step m' (ORun n)) = BFailed
+    /\ (forall ops, (forall o, In o ops -> op_name o <> n) ->
+          run_from m' ops = run_from (mkM (tremove (tbl m) n) (files m)) ops).
+Proof. exact reject_leaves_master_usable. Qed.
+Print Assumptions C01_reject_leaves_master_usable.
+
+(* the same, phrased on histories: after any prefix, a rejected compile of n followed by a
+   re-request of n answers "not loaded" *)
+Theorem C01_rerequest_after_rejection_is_not_loaded :
+  forall (pre post : list op) (n k : N) (rc : bool),
+    nth_error (run (pre ++ [OCompile n rc (Reject k)])) (length pre) = Some (BRejected k) ->
+    (forall o, In o post -> op_name o <> n) ->
+    forall s, nth_error (run (pre ++ OCompile n rc (Reject k) :: OCompile n false s :: post)) (S (length pre)) = Some BNotLoaded.
+Proof. exact reject_after_any_history. Qed.
+Print Assumptions C01_rerequest_after_rejection_is_not_loaded.
+
+(* (ii) jump_tables_bounded.  For EVERY loop skeleton the emitter accepts: every write into
+   either jump table has an index below its limit; every patch goes through a non-null slot
+   with an index below the limit; both counts are back at 0 at the end of the program. *)
+Theorem C01_jump_tables_bounded :
+  forall (p : stmts) (s : est),
+    emit_root p = Ok s ->
+    (forall w i loc, In (EvWrite w i loc) (log s) -> i < lim w)
+    /\ (forall w i l o, In (EvPatch w i l o) (log s) -> i < lim w /\ l <> None)
+    /\ bcnt s = 0 /\ ccnt s = 0.
+Proof. exact tables_bounded. Qed.
+Print Assumptions C01_jump_tables_bounded.
+
+(* the entry after the last one raises the overflow error and nothing is written: no state is
+   returned (the C++ throws; it resets the count to 0 first, the emitter is then abandoned) *)
+Theorem C01_break_on_a_full_table_raises_without_a_write :
+  forall s : est, canB s = true -> bcnt s = break_limit -> emit_break s = Err (EOverflow WB).
+Proof. exact break_on_full_table. Qed.
+Print Assumptions C01_break_on_a_full_table_raises_without_a_write.
+
+Theorem C01_continue_on_a_full_table_raises_without_a_write :
+  forall s : est, canC s = true -> ccnt s = continue_limit -> emit_continue s = Err (EOverflow WC).
+Proof. exact continue_on_full_table. Qed.
+Print Assumptions C01_continue_on_a_full_table_raises_without_a_write.
+
+(* below the limit a break is recorded in the next free slot of the BREAK table only *)
+Theorem C01_break_below_the_limit_is_recorded_in_the_break_table :
+  forall s : est, canB s = true -> bcnt s < break_limit ->
+    exists s', emit_break s = Ok s' /\ bcnt s' = bcnt s + 1 /\ get (btab s') (bcnt s) = Some (nloc s)
+               /\ (forall i, i <> bcnt s -> get (btab s') i = get (btab s) i) /\ ctab s' = ctab s /\ ccnt s' = ccnt s.
+Proof. exact break_with_room. Qed.
+Print Assumptions C01_break_below_the_limit_is_recorded_in_the_break_table.
+
+(* every recorded location is patched exactly once, by ITS construct: for every accepted
+   skeleton the list (owner, number of patches) per jump, in source order, is the list of
+   specification owners (innermost enclosing loop or switch for a break and a switch's exit
+   jump, innermost enclosing loop for a continue), each with count 1 *)
+Theorem C01_every_jump_is_patched_once_by_its_own_construct :
+  forall (p : stmts) (l : list (option N * N)),
+    kcompile p = KOk l -> l = map (fun o => (o, 1)) (kspec p).
+Proof. exact kcompile_owners. Qed.
+Print Assumptions C01_every_jump_is_patched_once_by_its_own_construct.
+
+(* the wiring read from the source (Generated.v) is the one the proofs are about *)
+Theorem C01_generated_wiring_is_the_modelled_one :
+  process_break = process WB WB WB /\ process_continue = process WC WC WC
+  /\ (forall s, emit_break s = if canB s then add_loc WB WB WB WB (nloc s) (set_nloc (nloc s + 1) s) else Err EIllegalBreak)
+  /\ (forall s, emit_continue s = if canC s then add_loc WC WC WC WC (nloc s) (set_nloc (nloc s + 1) s) else Err EIllegalContinue).
+Proof. exact (conj wiring_break (conj wiring_continue (conj wiring_emit_break wiring_emit_continue))). Qed.
+Print Assumptions C01_generated_wiring_is_the_modelled_one.
+
+(* ---------------------------------------------------------------- non-vacuity *)
+
+(* a rejected compile, a refused re-request in both variants, an unharmed other script, a later
+   successful recompile *)
+Example table_history :
+  run [OCompile 0 false (Accept 7); OSetFile 1 (Reject 3); OCompile 1 false (Reject 0); OCompile 1 false (Accept 9);
+       ORequest 1 false; OExec 1; ORun 0; OCompile 2 false (Accept 5); ORun 2; ORun 1; OCompile 1 true (Accept 9); ORun 1;
+       ORequest 1 true; ORun 1; ORequest 3 false]
+  = [BOk 7; BDone; BRejected 0; BNotLoaded; BNotLoaded; BNotLoaded; BRan 7; BOk 5; BRan 5; BFailed; BOk 9; BRan 9;
+     BRejected 3; BFailed; BNoFile].
+Proof. vm_compute. reflexivity. Qed.
+
+(* while { break continue switch { break } do { continue break } try { } catch { } } *)
+Example skeleton_owners :
+  kcompile (SCons (SWhile (SCons SBreak (SCons SContinue
+              (SCons (SSwitch (SCons SBreak SNil))
+              (SCons (SDo (SCons SContinue (SCons SBreak SNil)))
+              (SCons (STry (SCons SFill SNil) (SCons SFill SNil)) SNil)))))) SNil)
+  = KOk [(Some 0, 1); (Some 0, 1); (Some 1, 1); (Some 1, 1); (Some 2, 1); (Some 2, 1)].
+Proof. vm_compute. reflexivity. Qed.
+
+Fixpoint many (k : nat) (x : stmt) (r : stmts) : stmts :=
+  match k with O => r | S k' => SCons x (many k' x r) end.
+
+(* exactly at the limit: 100 breaks in one loop are accepted, the 101st is the overflow error;
+   a switch holds its own exit jump, so its 100th break overflows *)
+Example limit_100_ok : match kcompile (SCons (SWhile (many 100 SBreak SNil)) SNil) with KOk l => length l | KErr _ => 0%nat end = 100%nat.
+Proof. vm_compute. reflexivity. Qed.
+Example limit_101_err : kcompile (SCons (SWhile (many 101 SBreak SNil)) SNil) = KErr (EOverflow WB).
+Proof. vm_compute. reflexivity. Qed.
+Example limit_switch_100_err : kcompile (SCons (SSwitch (many 100 SBreak SNil)) SNil) = KErr (EOverflow WB).
+Proof. vm_compute. reflexivity. Qed.
+Example limit_continue_101_err : kcompile (SCons (SDo (many 101 SContinue SNil)) SNil) = KErr (EOverflow WC).
+Proof. vm_compute. reflexivity. Qed.
+(* pending entries of the outer loop count: 60 outside + 41 inside *)
+Example limit_nested_err :
+  kcompile (SCons (SWhile (many 60 SBreak (SCons (SWhile (many 41 SBreak SNil)) SNil))) SNil) = KErr (EOverflow WB).
+Proof. vm_compute. reflexivity. Qed.
+Example illegal_break : kcompile (SCons SBreak SNil) = KErr EIllegalBreak.
+Proof. vm_compute. reflexivity. Qed.
+Example illegal_continue_in_switch : kcompile (SCons (SSwitch (SCons SContinue SNil)) SNil) = KErr EIllegalContinue.
 Proof. vm_compute. reflexivity. Qed.
